@@ -91,3 +91,13 @@ CLAIMS["C09"] = (
     "6/C09", TRUSTED + "; identity of polynomials is established by value at 6 points in two prime fields "
     "(Schwartz-Zippel), not by a symbolic normal form",
     "TLA+ structural predicate + modular polynomial identity testing + TLC trace validation")
+
+CLAIMS["C11"] = (
+    "model_checking",
+    "TLC enumerates 36 expressions x 41 substitution maps for subs (seeded subsets for xreplace, msubs, ssubs), "
+    "each with and without the cache, plus absent-symbol and identity maps; TLC validates that the value of the "
+    "result equals the value of the expression in the substituted environment (simultaneous substitution "
+    "semantics of module Term), that cache on/off give one and the same object, and that absent/identity maps "
+    "return the input itself",
+    "6/C11", TRUSTED + "; maps with non-symbol keys are not covered by the value clause",
+    "TLA+ denotational semantics of substitution + TLC trace validation")
